@@ -101,6 +101,21 @@ def known_f6():
     return bool(got), f"sink rule with lang='java' (record_write, key 'k') applied to a statement of a python unit: apply_record_write_sink_rules -> {got}"
 
 
+def known_f12():
+    g = nx.DiGraph()
+    stmt = types.SimpleNamespace(start_row=3)
+    node = SFGNode(node_type=SFG_NODE_KIND.STMT, def_stmt_id=10, name='parameter_decl', stmt=stmt)
+    psym = SFGNode(node_type=SFG_NODE_KIND.SYMBOL, def_stmt_id=10, node_id=100, name='req', index=1)
+    g.add_edge(node, psym, weight=SFGEdge(edge_type=SFG_EDGE_KIND.SYMBOL_IS_DEFINED, stmt_id=10))
+    ap = object.__new__(TaintRuleApplier)
+    ap.sfg = g
+    ap.rule_manager = types.SimpleNamespace(all_sources=[Rule(operation='call_stmt', name='req')])
+    ap.loader = types.SimpleNamespace(convert_stmt_id_to_method_id=lambda s: 1, convert_stmt_id_to_unit_id=lambda s: 1,
+                                      convert_module_id_to_module_info=lambda u: types.SimpleNamespace(original_path='/p/a.py'))
+    got = ap.apply_parameter_source_rules(node)
+    return bool(got), f"source rule Rule(operation='call_stmt', name='req') and a parameter named req: apply_parameter_source_rules -> {got}"
+
+
 def search_flows():
     wit, cases = [], 0
     for stag, tag in itertools.product((0, 1, 2, 3), (1, 2)):
@@ -171,6 +186,9 @@ def search(target, models):
 
 
 def replay(w):
+    if isinstance(w, dict) and w.get('kind') == 'F12':
+        ok, detail = known_f12()
+        return dict(reproduced=ok, detail=detail)
     if isinstance(w, dict) and w.get('kind') == 'F6':
         ok, detail = known_f6()
         return dict(reproduced=ok, detail=detail)
